@@ -88,6 +88,18 @@ def oracle_case(real_types, summary, code, uses, type_mod):
     # two generated items of ONE name (the name-collision findings of C01 / C08 / C16): "the item the reported name resolves to"
     # is not defined for that name, so it is not judged here
     dup_names = {it["name"] for it in summary["items"] if sum(1 for o in summary["items"] if o["name"] == it["name"]) > 1}
+    if type_mod:
+        # every generated type a reported identifier mentions is written through the configured module (`types::Foo`), whatever
+        # it is nested in (a tuple, an Option, a Vec, the parameters of a map)
+        import re as _re
+        gen_names = sorted({it["name"] for it in summary["items"]}, key=len, reverse=True)
+        bare = _re.compile(r"(?<![A-Za-z0-9_:])(?:" + "|".join(_re.escape(n) for n in gen_names) + r")(?![A-Za-z0-9_])") if gen_names else None
+        for t in real_types:
+            idents = [("ident", t.get("ident"))] + [("property " + p["name"], p.get("type_ident")) for p in t.get("props") or []] + \
+                     ([("inner", t["inner"].get("type_ident"))] if isinstance(t.get("inner"), dict) else [])
+            for what, idn in idents:
+                if bare is not None and isinstance(idn, str) and bare.search(ns(idn)):
+                    f.append((ns(t["name"]), "reported identifier names a generated type without the module %s" % type_mod, what, ns(idn))); break
     for t in real_types:
         if t["kind"] not in ("struct", "enum", "newtype"): continue
         nm = ns(t["name"])
@@ -149,7 +161,9 @@ def run(ctx):
     try:
         from batch import Batch
         b = Batch(ctx, assertions=True, ops=())
-        sel = ok[: (150 if ctx.tier == "thorough" else 30)]
+        # every one-construct document (each string format of T2 among them), then the others while the budget lasts
+        singles_ = [i for i in ok if cs[i][0].startswith("single:")]
+        sel = singles_ + [i for i in ok if not cs[i][0].startswith("single:")][: (150 if ctx.tier == "thorough" else 30)]
         bc = []
         for i in sel:
             c = b.add_case(cs[i][1]["calls"], cs[i][1]["settings"], tag=cs[i][0]); c.request = cs[i][1]; bc.append(c)
@@ -160,6 +174,9 @@ def run(ctx):
                 if e.get("bound") in ("FromStr", "Display", "Default"):
                     fd = next((x for x in findings if x["id"] == "C17-display" and e["bound"] == "Display"
                                and is_constrained_string(c.dump, e.get("type"))), None)
+                    if fd is None and e["bound"] == "Default" and "NonZero" in ns(str(e.get("type"))) and "Option" not in ns(str(e.get("type"))):
+                        # has_impl(Default) is claimed for the NonZero integer types (and so for the tuples / arrays that hold one)
+                        fd = next((x for x in findings if x["id"] == "C17-nonzero-default"), None)
                     if fd: known_hit[fd["id"]] = known_hit.get(fd["id"], 0) + 1
                     else: assert_fail.append((c, e))
     except Exception as ex:
